@@ -348,7 +348,7 @@ fn handler_part(ctx: &Ctx, rep: &mut Report) {
     let mut r = ctx.rng("c06-handler");
     let n = ctx.count(160, 3_000);
     for k in 0..n {
-        let seed = r.next();
+        let seed = ctx.scenario_seed(r.next());
         let mut sr = Rng::new(seed);
         let torrent = Rc::new(gen_sim_torrent(&mut sr, 4, true));
         let ih = torrent.info_hash();
